@@ -1245,6 +1245,12 @@ fn main() {
         Some("without_uv_mc") => auth.hmac_secret(HmacSecretConfig::new_without_uv().enable_on_make_credential()),
         _ => auth,
     };
+    // the configured transport list (get_info reports it): default, empty, a single entry
+    let auth = match sc["config"]["transports"].as_str() {
+        Some("empty") => auth.transports(vec![]),
+        Some("usb") => auth.transports(vec![webauthn::AuthenticatorTransport::Usb]),
+        _ => auth,
+    };
     let mut auth = auth;
     let prf_inputs = || passkey_types::ctap2::extensions::AuthenticatorPrfInputs {
         eval: Some(passkey_types::ctap2::extensions::AuthenticatorPrfValues { first: [3u8; 32], second: None }),
